@@ -25,12 +25,16 @@ Flags == {"exclude-imports", "exclude-source-info", "as-file-descriptor-set"}
 FlagSets == {F \in SUBSET Flags : Cardinality(F) <= MaxFlags}
 \* operations whose outcome must be the same on every artifact of a selection
 PathSelections == { <<{}, {}>>, <<{"acme/v1"}, {}>>, <<{"acme/v1/a.proto"}, {}>>, <<{"acme/v2"}, {}>>, <<{}, {"acme/v1/sub"}>>, <<{}, {"acme/v2"}>>,
-                    <<{"acme/v1"}, {"acme/v1/sub"}>>, <<{"acme/v1", "acme/v2"}, {"acme/v1/sub"}>>, <<{"acme/v2"}, {"acme/v1"}>> }
+                    <<{"acme/v1"}, {"acme/v1/sub"}>>, <<{"acme/v1", "acme/v2"}, {"acme/v1/sub"}>>, <<{"acme/v2"}, {"acme/v1"}>>,
+                    \* a path and a path inside it
+                    <<{"acme/v1", "acme/v1/sub"}, {}>> }
 \* never a --path inside an --exclude-path
 IsPrefix(a, b) == a = b \/ (a = "acme/v1" /\ b \in {"acme/v1/a.proto", "acme/v1/sub"})
 ValidSelection(ps) == \A p \in ps[1] : \A x \in ps[2] : ~IsPrefix(x, p)
 Ops == {[op |-> "lint", paths |-> <<{}, {}>>], [op |-> "lint", paths |-> <<{"acme/v2"}, {}>>], [op |-> "breaking", paths |-> <<{}, {}>>]}
        \cup {[op |-> "build", paths |-> ps] : ps \in {q \in PathSelections : ValidSelection(q)}}
+       \* the order in which --path values are given must not matter
+       \cup {[op |-> "build-reversed", paths |-> ps] : ps \in {q \in PathSelections : ValidSelection(q) /\ Cardinality(q[1]) > 1}}
 
 VARIABLES art,    \* the artifact at hand
           last    \* the step that produced it (label only; hidden by the VIEW)
